@@ -1,11 +1,125 @@
+import OdmlModel.Model.Registry
+import Driver.ValidCodec
 import Driver.Util
 import Driver.Loop
 open Lean Drv
 
 namespace DrvC19
+open Valid Registry
 
-/-- Stub: replaced when the model of C19 is built. -/
-def handle (_j : Json) : Except String Json := throw "model of C19 not built"
+/-- The user-defined handlers of harness/c19.py (same numbering). -/
+def cust (n : Nat) (v : Visit) : List Issue :=
+  let name : Option Str := match v.obj with
+    | .sec s => some s.name
+    | .prop _ p => some p.name
+    | .doc _ => none
+  match n with
+  | 1 => [⟨v.ref, .custom, .warning⟩]
+  | 2 => match name with
+    | some ('a' :: _) => [⟨v.ref, .custom, .error⟩]
+    | _ => []
+  | _ => []
+
+def decKlass (s : String) : Except String Klass :=
+  match s with
+  | "odML" => pure .odML
+  | "section" => pure .section
+  | "property" => pure .property
+  | _ => throw s!"bad klass {s}"
+
+def decHandler (j : Json) : Except String Handler := do
+  if let .ok c := getNat j "c" then return .custom c
+  let r ← getStr j "r"
+  match Rule.ofName r with
+  | some x => pure (.rule x)
+  | none => throw s!"unknown rule {r}"
+
+def handlerName : Handler → String
+  | .rule r => r.name
+  | .custom n => s!"custom_{n}"
+
+def decMacro (s : String) : Except String Registry.Macro :=
+  match s with
+  | "defaultValidation" => pure .defaultValidation
+  | "customValidation" => pure .customValidation
+  | "constructSection" => pure .constructSection
+  | "constructPropertyValues" => pure (.constructProperty true)
+  | "constructProperty" => pure (.constructProperty false)
+  | "setSecCardinality" => pure .setSecCardinality
+  | "setPropCardinality" => pure .setPropCardinality
+  | "setValCardinality" => pure .setValCardinality
+  | "assignValues" => pure .assignValues
+  | "save" => pure .save
+  | "load" => pure .load
+  | _ => throw s!"unknown macro {s}"
+
+def encTable (t : Table) : Json :=
+  jobj ([Klass.odML, Klass.section, Klass.property].map fun k =>
+    (k.name, jarr ((((t k).map handlerName).toArray.qsort (· < ·)).toList.map jstr)))
+
+structure Run where
+  st : State
+  users : List (Nat × Nat)      -- user handle -> index of the validation object
+  out : List Json
+
+def lookupUser (r : Run) (u : Nat) : Except String Nat :=
+  match r.users.lookup u with
+  | some i => pure i
+  | none => throw s!"unknown validation handle {u}"
+
+def stepJson (r : Run) (j : Json) : Except String Run := do
+  let t ← getStr j "t"
+  let (st', users', extra) ← (match t with
+    | "new" => do
+      let u ← getNat j "u"
+      let reset ← getBool j "reset"
+      pure (act r.st (.op (.newValidation reset)), (u, r.st.insts.length) :: r.users,
+            ([] : List (String × Json)))
+    | "custom" => do
+      let i ← lookupUser r (← getNat j "u")
+      let k ← decKlass (← getStr j "k")
+      let h ← decHandler (← getVal j "h")
+      pure (act r.st (.op (.registerCustom i k h)), r.users, [])
+    | "global" => do
+      let k ← decKlass (← getStr j "k")
+      let h ← decHandler (← getVal j "h")
+      pure (act r.st (.op (.registerGlobal k h)), r.users, [])
+    | "run" => do
+      let i ← lookupUser r (← getNat j "u")
+      let n ← DrvValid.decNode (← getStr j "kind") (← getVal j "node")
+      let st' := act r.st (.op (.run i))
+      let iss := report cust st' i n
+      pure (st', r.users, [("issues", jarr (iss.map DrvValid.encIssue)),
+                           ("table", encTable (effective st' i))])
+    | "lib" => do
+      let m ← decMacro (← getStr j "m")
+      pure (act r.st (.lib m), r.users, [])
+    | _ => throw s!"unknown act {t}")
+  let obs := jobj ([("global", encTable st'.global), ("objects", jnat st'.insts.length)] ++ extra)
+  pure { st := st', users := users', out := obs :: r.out }
+
+def handle (j : Json) : Except String Json := do
+  let op ← getStr j "op"
+  match op with
+  | "history" =>
+    let acts ← getArr j "acts"
+    let r ← acts.toList.foldlM stepJson { st := init, users := [], out := [] }
+    pure (jarr r.out.reverse)
+  | "validate_with" =>
+    -- issues for an explicit handler order: {"odML": [...], "section": [...], "property": [...]}
+    let n ← DrvValid.decNode (← getStr j "kind") (← getVal j "node")
+    let tab ← getVal j "table"
+    let row : String → Except String (List Handler) := fun k => do
+      (← getArr tab k).toList.mapM decHandler
+    let o ← row "odML"
+    let s ← row "section"
+    let p ← row "property"
+    let t : Table := fun k => match k with
+      | .odML => o
+      | .section => s
+      | .property => p
+    pure (jarr ((issuesWith (applyH cust) t n).map DrvValid.encIssue))
+  | _ => throw s!"unknown op {op}"
 
 end DrvC19
 
